@@ -18,4 +18,12 @@ package chartconfig
 //@   loop 1: invariant fields != nil && typ != nil && (forall k string :: in(k, fields) ==> fields[k].Type != nil)
 //@   loop 2: invariant fields != nil && set != nil && inProgress != nil && (forall k string :: in(k, fields) ==> fields[k].Type != nil)
 //@   loop 3: invariant fields != nil && set != nil && inProgress != nil && (key == "" || in(key, fields))
+// What is parsed is the line without its comment: the text before the first '#'
+// is what the brace handling accumulates, what the field prefix is looked for in,
+// and - trimmed, after the prefix - what the field's parser is given.
+//@   at call Cut#1: assert arg0 == line && arg1 == "#"
+//@   at call TrimRightFunc#1: assert arg0 == text
+//@   at call TrimSpace#1: assert arg0 == text
+//@   at call TrimSpace#2: assert arg0 == text
+//@   at call parser#1: assert arg1 == text
 //@   modifies heap
